@@ -129,13 +129,15 @@ func c03Body(p c03Params, out *c03Obs) func() {
 		closed := false
 		if p.closer {
 			out.injected = true
-			vrt.GoNamed("h:closer", func() {
-				if p.closeStep != 0 {
-					late := false
-					tm := vrt.AfterFunc(time.Hour, func() { late = true })
-					vrt.AwaitFirst("h:close-at-step", func() bool { return late || (p.closeStep > 0 && vrt.Steps() >= p.closeStep) })
-					tm.Stop()
+			spawn := vrt.GoNamed
+			if p.closeStep != 0 {
+				late := false
+				tm := vrt.AfterFunc(time.Hour, func() { late = true })
+				spawn = func(name string, f func()) {
+					vrt.GoInterrupt(name, func() bool { return late || (p.closeStep > 0 && vrt.Steps() >= p.closeStep) }, func() { tm.Stop(); f() })
 				}
+			}
+			spawn("h:closer", func() {
 				closed = true
 				r.rc.Close()
 				vrt.Send(fin, -1)
@@ -310,7 +312,7 @@ func c03Units(thorough bool) []*explore.Unit {
 		}
 		// Close() at every scheduling step of a thread running client code, with a healthy
 		// server and with one that never answers (the position of Close is a parameter of
-		// the unit: vrt.AwaitFirst)
+		// the unit: vrt.GoInterrupt)
 		for _, silent := range []bool{false, true} {
 			pp := base
 			pp.closer, pp.closeStep = true, -1
@@ -430,7 +432,7 @@ func init() {
 		Race: c03Race,
 		ID:   "C03", Level: "fault_enumeration",
 		Technique:   "stateless model checking of the real region client: every connection-operation fault position and server misbehaviour crossed with all schedules up to a deviation bound, under a controlled scheduler with virtual time",
-		Rule:        "units = call mix (batched/unbatched/cellblock/cancelled) x {no fault, k-th connection op fails for every k incl. partial writes, server EOF / truncated frame / undecodable header / unknown call id / missing call id / server-fatal exception / silence at every frame} x {external Close() thread or not}; for each unit every schedule with <=1 (thorough <=2) deviations from the default run-to-block schedule. Oracle per call: exactly one completion on its result channel, class ServerError unless genuinely answered; later calls refused at once; no client thread left blocked. Non-trivial = at least one non-default scheduling choice. Close() additionally starts at EVERY scheduling step of a thread running client code, with a healthy and with a silent server (vrt.AwaitFirst: the event's thread becomes the default choice at that step, so its position is a parameter of the unit and costs no deviation), each with <=1 (thorough 2) further deviations; Close x fault units one deviation deeper than the rest.",
+		Rule:        "units = call mix (batched/unbatched/cellblock/cancelled) x {no fault, k-th connection op fails for every k incl. partial writes, server EOF / truncated frame / undecodable header / unknown call id / missing call id / server-fatal exception / silence at every frame} x {external Close() thread or not}; for each unit every schedule with <=1 (thorough <=2) deviations from the default run-to-block schedule. Oracle per call: exactly one completion on its result channel, class ServerError unless genuinely answered; later calls refused at once; no client thread left blocked. Non-trivial = at least one non-default scheduling choice. Close() additionally starts at EVERY scheduling step of a thread running client code, with a healthy and with a silent server (vrt.GoInterrupt: the event's thread is created waiting for that step and is the default choice there, so its position is a parameter of the unit and costs no deviation), each with <=1 (thorough 2) further deviations; Close x fault units one deviation deeper than the rest.",
 		Assumptions: []string{"scheduling points: channel ops, locks, atomics, Once, every net.Conn method; code between them is atomic (Go memory model, race freedom checked separately)", "virtual time: timers fire at quiescence (or earlier as a counted deviation)"},
 		Quick:       100 * time.Second, Thorough: 20 * time.Minute,
 		Units: c03Units,
